@@ -41,13 +41,13 @@ fn esc(s: &str) -> String {
     o
 }
 
-struct Cx<'tcx> {
+struct Cx<'a, 'tcx> {
     tcx: TyCtxt<'tcx>,
-    body: &'tcx Body<'tcx>,
+    body: &'a Body<'tcx>,
     def: rustc_hir::def_id::DefId,
 }
 
-impl<'tcx> Cx<'tcx> {
+impl<'a, 'tcx> Cx<'a, 'tcx> {
     fn place(&self, p: &Place<'tcx>) -> String {
         let mut s = format!("[{},[", p.local.as_usize());
         let mut pty = PlaceTy::from_ty(self.body.local_decls[p.local].ty);
@@ -383,7 +383,43 @@ fn dump<'tcx>(tcx: TyCtxt<'tcx>, out_dir: &str, krate: &str) {
                     let _ = write!(out, "{}:{}", esc(&vdi.name.to_string()), cx.place(p));
                 }
             }
-            out.push_str("},\"bb\":[");
+            out.push_str("},\"promoted\":[");
+            {
+                // promoted constants: summarise what each one builds (e.g. `&TxPhase::Prepared`)
+                let summarise = |pb: &Body<'tcx>| -> String {
+                    let pcx = Cx { tcx, body: pb, def: did };
+                    let mut parts: Vec<String> = Vec::new();
+                    for data in pb.basic_blocks.iter() {
+                        for st in &data.statements {
+                            if let StatementKind::Assign(b) = &st.kind {
+                                match &b.1 {
+                                    Rvalue::Aggregate(..) | Rvalue::Use(Operand::Constant(_), ..) | Rvalue::Cast(..) => parts.push(pcx.rv(&b.1)),
+                                    _ => {}
+                                }
+                            }
+                        }
+                    }
+                    format!("[{}]", parts.join(","))
+                };
+                let mut firstp = true;
+                if pre_transform {
+                    let (_, psteal) = tcx.mir_promoted(ldid);
+                    if !psteal.is_stolen() {
+                        for pb in psteal.borrow().iter() {
+                            if !firstp { out.push(','); }
+                            firstp = false;
+                            out.push_str(&summarise(pb));
+                        }
+                    }
+                } else {
+                    for pb in tcx.promoted_mir(did).iter() {
+                        if !firstp { out.push(','); }
+                        firstp = false;
+                        out.push_str(&summarise(pb));
+                    }
+                }
+            }
+            out.push_str("],\"bb\":[");
             for (bi, data) in body.basic_blocks.iter().enumerate() {
                 if bi > 0 {
                     out.push(',');
